@@ -68,6 +68,7 @@ Props ==
   /\ NT("LG_C07", E.a = "block" \/ (E.ok /\ (Url("storage.MsgPostFile") \/ Url("storage.MsgDeleteFile") \/ Url("storage.MsgBuyStorage"))))
 
 TStep == /\ E.a \in {"tx", "block"} /\ l' = l + 1
+         /\ Chk("LG_MintSplit", (E.a = "block" /\ E.ok) => SplitExact(P.split))   \* also in "big" histories
          /\ IF live /\ ~P.big
             THEN /\ Logged /\ live' = TRUE /\ auth' = P.auth
                  /\ emission' = IF E.a = "block" THEN P.supply[MintDenom] - supply[MintDenom] ELSE emission
